@@ -392,10 +392,42 @@ def inversion_env(chain_factory):
     return adm, prob, incs, mf
 
 
-def one_d_chain_case(ctx, fam, params, kind, h, kw, mname, desc, hist=True):
+def pure_env_1d(ctx, s, o, n):
+    """enumeration tables of a 1-d inversion sampler WITHOUT calling `project` on any pairing object: the order of the
+    states is M's pure `z1dProject` (C14's model of PairingToZ1d asked in increasing order on a fresh object), the
+    probabilities come from the sampler's own pure closure.  Any pairing object of the same interval that has its own
+    history (or shares a memo with another object) therefore cannot influence the reference."""
+    sm = s.state_manager
+    mf = int(sm.max_frontier_indices)
+    L, R = o, n - 1 - o
+    incs = [int(x) for x in ctx.lean(f"z1d {L} {R} 1 {mf + 1}", name="C14")[1:-1].split(",")]
+    adm, prob = [], []
+    for inc in incs:
+        inside = -L <= inc <= R and inc != 0 and not sm.is_outside(inc)
+        adm.append(1 if inside else 0)
+        prob.append(float(s.probability_to_jump_to_state(inc)) if inside else 0.0)
+    return adm, prob, incs, mf
+
+
+def pure_env_2d(ctx, s):
+    """same for the 2-d factory pairing (PairingToZd over Szudzik, omit_zero): states from C14's `zdProject`"""
+    sm = s.state_manager
+    mf = int(sm.max_frontier_indices)
+    rows = ctx.lean(f"zdproj szudzik 1 2 0 {mf + 1}", name="C14")[1:-1].split(";")
+    incs = [tuple(int(v) for v in r.split(",")) for r in rows]
+    adm, prob = [], []
+    for inc in incs:
+        inside = not sm.is_outside(inc)
+        adm.append(1 if inside else 0)
+        prob.append(float(s.probability_to_jump_to_state(inc)) if inside else 0.0)
+    return adm, prob, incs, mf
+
+
+def one_d_chain_case(ctx, fam, params, kind, h, kw, mname, desc, hist=True, pre=None, stream="factory"):
     model = zoo.make_levy(fam, params)
     method = SamplingMethod[mname]
-    cls = {"stream": "factory", "method": mname.lower(), "grid": kind, "dim": 1}
+    cls = {"stream": stream, "method": mname.lower(), "grid": kind, "dim": 1}
+    P = f"c02.{stream}"
     try:
         g, gd = zoo.make_grid(kind, model, h, **kw)
     except Exception as e:  # noqa: grid constructor rejected these arguments (C13's subject)
@@ -410,7 +442,15 @@ def one_d_chain_case(ctx, fam, params, kind, h, kw, mname, desc, hist=True):
         ctx.branches["c02.grid_skipped"] += 1          # malformed grids are C13's known findings
         return
     d = dict(desc, **gd, method=mname)
-    mk = lambda: MarkovChainProcess(zoo.make_levy(fam, params), method, zoo.make_grid(kind, zoo.make_levy(fam, params), h, **kw)[0])
+    mk_with = lambda m: MarkovChainProcess(zoo.make_levy(fam, params), SamplingMethod[m], zoo.make_grid(kind, zoo.make_levy(fam, params), h, **kw)[0])
+    mk = lambda: mk_with(mname)
+    others = []
+    if pre is not None:                # cross-instance history: other samplers on identical grids draw first
+        try:
+            others = pre(ctx, mk_with, o, n, d, cls)
+        except Exception as e:  # noqa
+            ctx.fail("oracle", f"{P}.raises", d, {"what": "exception while other samplers on an identical grid were drawing", "raised": repr(e)}, cls=cls)
+            return
     try:
         mc = MarkovChainProcess(model, method, g)
         s = mc.sampling
@@ -418,10 +458,10 @@ def one_d_chain_case(ctx, fam, params, kind, h, kw, mname, desc, hist=True):
         q = create_q_vector(mc.model.levy_triplet.nu, g)
         target = [fr(float(x)) / fr(lam) for x in q]        # q / lambda, the chain's jump law (C01)
     except Exception as e:  # noqa
-        ctx.count("c02.factory", d, nontrivial=False, branch=f"{mname}:{kind}:raises")
-        ctx.fail("oracle", "c02.factory.raises", d, {"raised": repr(e)}, cls=cls)
+        ctx.count(P, d, nontrivial=False, branch=f"{mname}:{kind}:raises")
+        ctx.fail("oracle", f"{P}.raises", d, {"raised": repr(e)}, cls=cls)
         return
-    ctx.count("c02.factory", d, nontrivial=sum(1 for x in target if x > 0) >= 3, branch=f"{mname}:{kind}")
+    ctx.count(P, d, nontrivial=sum(1 for x in target if x > 0) >= 3, branch=f"{mname}:{kind}")
     try:
         if mname == "ALIAS":
             idx = lambda k: int(s.states(k)) + o
@@ -435,7 +475,7 @@ def one_d_chain_case(ctx, fam, params, kind, h, kw, mname, desc, hist=True):
             shape, vals = huff_serial(s.head)
             cells = [(int(s.states(k)) + o, a, b) for k, a, b in parse_cells(ctx.lean(f"huff-cells {ilist(shape)} {wl(vals)}"))]
         elif mname == "INVERSION":
-            adm, prob, incs, mf = inversion_env(mk)
+            adm, prob, incs, mf = pure_env_1d(ctx, s, o, n)
             calls = []
             orig_choice = np.random.choice
 
@@ -451,34 +491,36 @@ def one_d_chain_case(ctx, fam, params, kind, h, kw, mname, desc, hist=True):
             pl = float(s._proba_left_axis)
             cells = parse_cells(ctx.lean(f"ad1-cells {wl(wt)} {o} {w(pl)}"))
         elif mname == "TABLE":
-            return table_factory_case(ctx, d, cls, s, target, o, n)
+            return table_factory_case(ctx, d, cls, s, target, o, n, P)
         # ---------------- S: law of the implementation as a function of u vs q/lambda; never origin / out of grid / p = 0
         total = sum((b - a for _, a, b in cells if b > a), Fraction(0))
         if not tiles(cells, hi=total, tol=TOL) or abs(total - 1) > TOL:
-            ctx.fail("corr", "c02.factory.cells", d, {"name": f"{mname}: cells of M from the extracted tables do not tile [0,1)", "total": float(total)}, cls=cls)
+            ctx.fail("corr", f"{P}.cells", d, {"name": f"{mname}: cells of M from the extracted tables do not tile [0,1)", "total": float(total)}, cls=cls)
         law, bad, excl = law_from_cells(ctx, cells, single)
         if mname == "INVERSION" and calls:
-            ctx.fail("oracle", "c02.factory.law", d, {"what": "enumeration exhausted (random frontier state) for a uniform below the total mass",
+            ctx.fail("oracle", f"{P}.law", d, {"what": "enumeration exhausted (random frontier state) for a uniform below the total mass",
                                                       "u": calls[:3]}, cls=cls)
     except Exception as e:  # noqa
-        ctx.fail("oracle", "c02.factory.raises", d, {"raised": repr(e)}, cls=cls)
+        ctx.fail("oracle", f"{P}.raises", d, {"raised": repr(e)}, cls=cls)
         return
     if bad:
-        ctx.fail("corr", "c02.factory.draw", d, {"name": f"{mname}: implementation at inside points of M's cells", "mismatches": bad[:5]}, cls=cls)
-    judge_law(ctx, d, cls, law, excl, target, o, n)
+        ctx.fail("corr", f"{P}.draw", d, {"name": f"{mname}: implementation at inside points of M's cells", "mismatches": bad[:5]}, cls=cls)
+    judge_law(ctx, d, cls, law, excl, target, o, n, probe=f"{P}.law")
     if mname == "INVERSION":      # on a fresh instance each boundary is first reached by the extension loop, then by the memo
         fresh = mk().sampling
-        boundary_points(ctx, d, cls, s, lambda u: canon(fresh.sample_with_u(u)) + o, mname, lambda r: isinstance(r, int) and 0 <= r < n and r != o)
+        boundary_points(ctx, d, cls, s, lambda u: canon(fresh.sample_with_u(u)) + o, mname, lambda r: isinstance(r, int) and 0 <= r < n and r != o, P)
     else:
-        boundary_points(ctx, d, cls, s, single, mname, lambda r: isinstance(r, int) and 0 <= r < n and r != o)
+        boundary_points(ctx, d, cls, s, single, mname, lambda r: isinstance(r, int) and 0 <= r < n and r != o, P)
     us = [u for _, lo, hi in cells for u in probe_points(lo, hi)]
     ctx.rng.shuffle(us)
     batch_case(ctx, d, cls, s, lambda u: single(u) - o, us[:40])
     if hist and mname in ("INVERSION", "BINARYSEARCHTREEADAPTED1D"):
         history_case(ctx, d, cls, mk, cells, o, env=(adm, prob, incs, mf) if mname == "INVERSION" else None)
+    if pre is not None:
+        interleave_case(ctx, d, cls, [(mname, s, single, cells)] + others, mk_with, o, n)
 
 
-def boundary_points(ctx, d, cls, s, single, mname, admissible):
+def boundary_points(ctx, d, cls, s, single, mname, admissible, P="c02.factory"):
     """don't-care points (u exactly on a cell boundary): only "no exception, a state of the grid other than the origin";
     each point is asked twice (the second call of the inversion sampler takes the memoised branch)"""
     if mname == "INVERSION":
@@ -492,13 +534,13 @@ def boundary_points(ctx, d, cls, s, single, mname, admissible):
             for _ in range(2):
                 r = single(u)
                 if not admissible(r):
-                    ctx.fail("oracle", "c02.factory.law", d, {"what": "inadmissible state for a uniform on a cell boundary", "u": u, "returned": str(r)}, cls=cls)
+                    ctx.fail("oracle", f"{P}.law", d, {"what": "inadmissible state for a uniform on a cell boundary", "u": u, "returned": str(r)}, cls=cls)
                     return
     except Exception as e:  # noqa
-        ctx.fail("oracle", "c02.factory.raises", d, {"what": "exception for a uniform exactly on a cell boundary", "raised": repr(e)}, cls=cls)
+        ctx.fail("oracle", f"{P}.raises", d, {"what": "exception for a uniform exactly on a cell boundary", "raised": repr(e)}, cls=cls)
 
 
-def judge_law(ctx, d, cls, law, excl, target, o, n, key=lambda k: k):
+def judge_law(ctx, d, cls, law, excl, target, o, n, key=lambda k: k, probe="c02.factory.law"):
     """oracle: measured length per state == q_k / lambda (2^-40), nothing on the origin / outside / zero-probability"""
     worst = None
     for k in range(n):
@@ -509,13 +551,13 @@ def judge_law(ctx, d, cls, law, excl, target, o, n, key=lambda k: k):
     outside = [str(k) for k, v in law.items() if v > 0 and not (isinstance(k, int) and 0 <= k < n)]
     zero = [k for k in range(n) if target[k] == 0 and law.get(key(k), Fraction(0)) > 0]
     if worst or outside or zero:
-        ctx.fail("oracle", "c02.factory.law", d, {
+        ctx.fail("oracle", probe, d, {
             "what": "length of the set of u sent to a state != q_k/lambda, or a forbidden state is returned",
             "worst_state": None if not worst else {"index": worst[0], "measured": float(worst[2]), "target": float(target[worst[0]])},
             "outside_grid": outside[:5], "zero_probability_or_origin": zero[:5], "origin": o}, cls=cls)
 
 
-def table_factory_case(ctx, d, cls, s, target, o, n):
+def table_factory_case(ctx, d, cls, s, target, o, n, P="c02.factory"):
     slots = [int(x) for x in s.J]
     am = s.alias_method
     law = rdl(ctx.lean(f"table-law {ilist(slots)} {ilist(am.J)} {wl(am.q)} {n}"))
@@ -526,8 +568,8 @@ def table_factory_case(ctx, d, cls, s, target, o, n):
         ctx.branches["c02.factory.table_one_sided"] += 1
         return
     if len(slots) != 256:
-        ctx.fail("oracle", "c02.factory.law", d, {"what": "slot table does not have 256 entries", "len": len(slots)}, cls=cls)
-    judge_law(ctx, d, cls, lawd, Fraction(0), target, o, n)
+        ctx.fail("oracle", f"{P}.law", d, {"what": "slot table does not have 256 entries", "len": len(slots)}, cls=cls)
+    judge_law(ctx, d, cls, lawd, Fraction(0), target, o, n, probe=f"{P}.law")
     is_ = list(range(256)) + [ctx.rng.getrandbits(32) for _ in range(64)]
     minus = [b for b, j in enumerate(slots) if j < 0]
     if minus:
@@ -540,14 +582,14 @@ def table_factory_case(ctx, d, cls, s, target, o, n):
         with Patch(pyrandom, "getrandbits", lambda k: next(it)):
             out = [int(x) for x in s.sample(40)]
     except Exception as e:  # noqa
-        ctx.fail("oracle", "c02.factory.raises", d, {"raised": repr(e)}, cls=cls)
+        ctx.fail("oracle", f"{P}.raises", d, {"raised": repr(e)}, cls=cls)
         return
     model = [int(x) + shift for x in rdl(ctx.lean(f"table-draw {ilist(slots)} {ilist(am.J)} {wl(am.q)} {ilist(is_)}"))]
     if got != model:
-        ctx.fail("corr", "c02.factory.draw", d, {"name": "table: draw of M vs _sample_one on the extracted tables"}, cls=cls)
+        ctx.fail("corr", f"{P}.draw", d, {"name": "table: draw of M vs _sample_one on the extracted tables"}, cls=cls)
     forb = [g for g in got if not (0 <= g + o < n) or target[g + o] == 0]
     if forb:
-        ctx.fail("oracle", "c02.factory.law", d, {"what": "origin / out-of-grid / zero-probability state returned", "increments": forb[:5]}, cls=cls)
+        ctx.fail("oracle", f"{P}.law", d, {"what": "origin / out-of-grid / zero-probability state returned", "increments": forb[:5]}, cls=cls)
     ctx.count("c02.batch", dict(d, stream="batch"), nontrivial=False, branch="table")
     if out != got[:40]:
         ctx.fail("oracle", "c02.batch", d, {"what": "TableMethod.sample(size) != _sample_one per integer"}, cls=cls)
@@ -606,6 +648,180 @@ def history_case(ctx, d, cls, mk, cells, o, env=None, nd=False):
                                                "first": diff[:4], "count": len(diff)}, cls=hcls, mirrors_model=mirrors)
 
 
+# ------------------------------------------------------------------------------------------------ (v) cross-instance histories
+def sampler_single(mname, s, o):
+    """single-uniform entry point of a 1-d factory sampler as a function u -> axis index (None: TABLE consumes an integer)"""
+    if mname == "ALIAS":
+        return lambda u: int(s.states(s._draw_with_u(u))) + o
+    if mname == "HUFFMANNTREE":
+        return lambda u: int(s.states(hf.sample_with_u(u, s.head)[0])) + o
+    if mname in ("BINARYSEARCHTREE", "BINARYSEARCHTREEADAPTED1D"):
+        return lambda u: int(s.sample_with_u(u)) + o
+    if mname == "INVERSION":
+        return lambda u: canon(s.sample_with_u(u)) + o
+    return None
+
+
+def inversion_cells_1d(ctx, s, o, n):
+    adm, prob, incs, mf = pure_env_1d(ctx, s, o, n)
+    return [(incs[k] + o, a, b) for k, a, b in parse_cells(ctx.lean(f"inv-cells {ilist(adm)} {mf} {wl(prob)}"))]
+
+
+def partial_depth_us(rng, cells, o, n, count):
+    """uniforms (cell midpoints) whose enumeration index lies past the switch index 2*min(L,R) of the 1-d pairing but
+    before the end (when the grid is asymmetric enough), in increasing depth; otherwise random midpoints"""
+    L, R = o, n - 1 - o
+    sw = 2 * min(L, R)
+    cand = [(j, c) for j, c in enumerate(cells) if sw < j < len(cells) - 1 and probe_points(c[1], c[2])]
+    if not cand:
+        cand = [(j, c) for j, c in enumerate(cells) if probe_points(c[1], c[2])]
+    pick = sorted(rng.sample(cand, min(count, len(cand))))
+    return [(probe_points(c[1], c[2])[0], c[0]) for _, c in pick]
+
+
+def make_pre(firsts):
+    """history on OTHER sampler objects built on identical models/grids in the same process, before the swept sampler
+    is even constructed: an inversion sampler draws past the switch index but not to the end; the others draw a few
+    uniforms.  Returns the objects (they take part in the interleaving afterwards)."""
+    def pre(ctx, mk_with, o, n, d, cls):
+        out = []
+        for m in firsts:
+            a = mk_with(m).sampling
+            single = sampler_single(m, a, o)
+            cells = None
+            if m == "INVERSION":
+                cells = inversion_cells_1d(ctx, a, o, n)
+                for u, want in partial_depth_us(ctx.rng, cells, o, n, ctx.rng.choice([1, 1, 2, 3])):
+                    got = single(u)
+                    if got != want:
+                        ctx.fail("corr", "c02.cross.draw", d, {"name": "first inversion sampler vs cells of the pure enumeration", "u": u, "impl": got, "model": want}, cls=cls)
+            elif single is not None:
+                for _ in range(5):
+                    single(ctx.rng.random())
+            out.append((m, a, single, cells))
+        return out
+    return pre
+
+
+def cell_state(cells, u):
+    fu = Fraction(u)
+    for st, lo, hi in cells:
+        if lo < fu < hi:
+            return st
+    return None
+
+
+def interleave_case(ctx, d, cls, samplers, mk_with, o, n):
+    """draws interleaved between sampler objects living on identical grids.  Oracle: the state returned for a uniform
+    by one method does not depend on which object is asked nor on what any object drew before, and the law of an object
+    swept at the end is still q/lambda.  Tie: every answer is the state of M's cell containing the uniform."""
+    rng = ctx.rng
+    mname, s, single, cells = samplers[0]
+    if single is None or not cells:
+        return
+    hd = dict(d, stream="cross-interleave", others=[m for m, *_ in samplers[1:]])
+    ctx.count("c02.cross.history", hd, nontrivial=len(cells) >= 3, branch=mname)
+    hcls = dict(cls, stream="cross-history")
+    try:
+        # two more objects of the swept method, built after all that history
+        e, f = mk_with(mname).sampling, mk_with(mname).sampling
+        pool = [(m, smp, sg, cl if cl is not None else (cells if m == mname else None)) for m, smp, sg, cl in samplers if sg is not None]
+        pool += [(mname, e, sampler_single(mname, e, o), cells), (mname, f, sampler_single(mname, f, o), cells)]
+        mids = [probe_points(lo, hi)[0] for _, lo, hi in cells if probe_points(lo, hi)]
+        # (a) increasing depth alternating between the two new objects, (b) random interleaving over all objects
+        deep = sorted(rng.sample(mids, min(len(mids), 8)))
+        seq = [(len(pool) - 2 + (i % 2), u) for i, u in enumerate(deep)]
+        seq += [(rng.randrange(len(pool)), rng.choice(mids)) for _ in range(ctx.n(30, 150))]
+        seen, diff, off = {}, [], []
+        for i, u in seq:
+            m, smp, sg, cl = pool[i]
+            got = sg(u)
+            if m == mname:
+                if seen.setdefault(u, got) != got:
+                    diff.append({"u": u, "object": i, "returned": got, "earlier": seen[u]})
+            if cl is not None and m in (mname, "INVERSION"):
+                want = cell_state(cl, u)
+                if want is not None and got != want:
+                    off.append({"u": u, "object": i, "method": m, "impl": got, "model": want})
+        # (c) one of the new objects swept at every cell midpoint: its law
+        g = pool[-1][2]
+        law = {}
+        for st, lo, hi in cells:
+            pts = probe_points(lo, hi)
+            if pts:
+                k = g(pts[0])
+                law[k] = law.get(k, Fraction(0)) + (hi - lo)
+        wrong = {st: [float(law.get(st, 0)), float(sum((hi - lo for s2, lo, hi in cells if s2 == st and probe_points(lo, hi)), Fraction(0)))]
+                 for st in set(law) | {c[0] for c in cells}}
+        wrong = {k: v for k, v in wrong.items() if abs(v[0] - v[1]) > 2.0 ** -40}
+    except Exception as ex:  # noqa
+        ctx.fail("oracle", "c02.cross.raises", hd, {"raised": repr(ex)}, cls=hcls)
+        return
+    if off:
+        ctx.fail("corr", "c02.cross.draw", hd, {"name": f"{mname}: interleaved objects vs M's cells", "mismatches": off[:5]}, cls=hcls)
+    if diff:
+        ctx.fail("oracle", "c02.cross.history", hd, {"what": "the state returned for u depends on which sampler object is asked / on earlier draws of any object",
+                                                     "first": diff[:4], "count": len(diff)}, cls=hcls)
+    if wrong:
+        ctx.fail("oracle", "c02.cross.law", hd, {"what": "after interleaved draws on objects living on identical grids, the length of u sent to a state by a further "
+                                                         "object differs from the length of that state's cells (= q_k/lambda, judged on the swept object)",
+                                                 "state: [measured, cells]": dict(list(wrong.items())[:6])}, cls=hcls)
+
+
+def interleave_2d(ctx, d, cls, mname, objs, mk, cells):
+    """2-d version of the interleaving: objects on identical 2-d grids asked in random order; same method => same state
+    for the same uniform, equal to the state of the predicted cell"""
+    rng = ctx.rng
+    hd = dict(d, stream="cross-interleave", others=[m for m, _ in objs[1:]])
+    hcls = dict(cls, stream="cross-history")
+    ctx.count("c02.cross.history", hd, branch=mname + ":2d")
+    ask = lambda m, smp, u: canon(smp.sample_with_u(u)) if m == "INVERSION" else canon(smp.sample_with_us(np.array([u]))[0])
+    try:
+        pool = list(objs) + [(mname, mk().sampling)]
+        mids = [(probe_points(lo, hi)[0], st) for st, lo, hi in cells if hi > lo and probe_points(lo, hi)]
+        seen, diff, off = {}, [], []
+        for _ in range(ctx.n(40, 200)):
+            i = rng.randrange(len(pool))
+            u, want = rng.choice(mids)
+            m, smp = pool[i]
+            got = ask(m, smp, u)
+            if m == mname:
+                if seen.setdefault(u, got) != got:
+                    diff.append({"u": u, "object": i, "returned": str(got), "earlier": str(seen[u])})
+                if got != want:
+                    off.append({"u": u, "object": i, "impl": str(got), "model": str(want)})
+    except Exception as ex:  # noqa
+        ctx.fail("oracle", "c02.cross.raises", hd, {"raised": repr(ex)}, cls=hcls)
+        return
+    if off:
+        ctx.fail("corr", "c02.cross.draw", hd, {"name": f"{mname} 2-d: interleaved objects vs predicted cells", "mismatches": off[:5]}, cls=hcls)
+    if diff:
+        ctx.fail("oracle", "c02.cross.history", hd, {"what": "the state returned for u depends on which sampler object is asked / on earlier draws of any object",
+                                                     "first": diff[:4], "count": len(diff)}, cls=hcls)
+
+
+def cross_stream(ctx, models):
+    """(v) 1-d: samplers of the same and of mixed methods on identical (asymmetric and symmetric) grids"""
+    rng = ctx.rng
+    asym = [("hem", {"sigma": 0.1, "p": 0.6, "eta1": 10.0, "eta2": 60.0, "intensity": 5.0}),
+            ("hem", {"sigma": 0.1, "p": 0.3, "eta1": 40.0, "eta2": 8.0, "intensity": 3.0})]
+    plans = [(["INVERSION"], "INVERSION"), (["INVERSION", "INVERSION"], "INVERSION"), (["BINARYSEARCHTREEADAPTED1D", "INVERSION"], "INVERSION"),
+             (["INVERSION"], "BINARYSEARCHTREEADAPTED1D"), (["ALIAS", "INVERSION"], "BINARYSEARCHTREE"), (["INVERSION", "TABLE"], "HUFFMANNTREE"),
+             (["BINARYSEARCHTREEADAPTED1D"], "BINARYSEARCHTREEADAPTED1D"), (["HUFFMANNTREE"], "ALIAS")]
+    cases = []
+    for fam, params in asym:
+        cases.append((fam, params, "uniform", rng.choice([0.02, 0.05]), {"truncation_probability": rng.choice([0.99, 0.999])}))
+    for fam, params in models[:ctx.n(3, 10)]:
+        kind = rng.choice(["uniform", "geometric", "geometric_bounds", "fixed", "credit"])
+        h, kw = grid_kwargs(rng, kind)
+        cases.append((fam, params, kind, h, kw))
+    for i, (fam, params, kind, h, kw) in enumerate(cases):
+        chosen = [plans[0], plans[1 + i % 2]] + rng.sample(plans[2:], ctx.n(1, 4))
+        for firsts, swept in chosen:
+            one_d_chain_case(ctx, fam, params, kind, h, kw, swept, dict(stream="cross", family=fam, params=params, h=h, kw=kw, grid=kind, firsts=firsts),
+                             hist=False, pre=make_pre(firsts), stream="cross")
+
+
 # ------------------------------------------------------------------------------------------------ 2-d copula chains
 def adapted_nd_cells(s):
     """Python re-enumeration of BinarySearchTreeAdapted.sample_with_us as explicit cells (state increment, lo, hi];
@@ -660,7 +876,7 @@ def adapted_nd_cells(s):
     return cells
 
 
-def copula_case(ctx, margins_desc, cop, gkind, gkw, mname):
+def copula_case(ctx, margins_desc, cop, gkind, gkw, mname, firsts=()):
     rng = ctx.rng
     mk_model = lambda: zoo.make_copula_model([zoo.make_levy(f, p) for f, p in margins_desc], zoo.make_copula(cop))
     if gkind == "credit":
@@ -669,6 +885,8 @@ def copula_case(ctx, margins_desc, cop, gkind, gkw, mname):
         mk_grid = lambda: zoo.make_grid("fixed", None, gkw["h"], dimension=2, nb_of_points=gkw["nb"])[0]
     method = SamplingMethod[mname]
     d = {"stream": "factory2d", "margins": margins_desc, "copula": cop, "grid": gkind, "gkw": gkw, "method": mname}
+    if firsts:
+        d["firsts"] = list(firsts)
     cls = {"stream": "factory", "method": mname.lower(), "grid": gkind, "dim": 2}
     mk = lambda: MarkovChainLevyCopula(mk_model(), mk_grid(), method)
     try:
@@ -683,6 +901,14 @@ def copula_case(ctx, margins_desc, cop, gkind, gkw, mname):
         states = [(i, j) for i in range(sizes[0]) for j in range(sizes[1]) if (i, j) != oc]
         target = {tuple(a - b for a, b in zip(st, oc)): fr(float(ref.probability_to_jump_to_state(tuple(a - b for a, b in zip(st, oc)))))
                   for st in states}                          # joint mass of the cell / lambda (C01)
+        # (v) cross-instance history in 2-d: other samplers on identical grids draw before the swept one is built
+        others = []
+        for m in firsts:
+            a = MarkovChainLevyCopula(mk_model(), mk_grid(), SamplingMethod[m]).sampling
+            for _ in range(6):
+                u = rng.random() * 0.98
+                canon(a.sample_with_u(u)) if m == "INVERSION" else canon(a.sample_with_us(np.array([u]))[0])
+            others.append((m, a))
         s = mk().sampling
     except Exception as e:  # noqa
         ctx.count("c02.factory", d, nontrivial=False, branch=f"{mname}:2d:raises")
@@ -692,7 +918,7 @@ def copula_case(ctx, margins_desc, cop, gkind, gkw, mname):
     env = None
     try:
         if mname == "INVERSION":
-            env = inversion_env(mk)
+            env = pure_env_2d(ctx, s)
             adm, prob, incs, mf = env
             calls = []
             orig_choice = np.random.choice
@@ -732,6 +958,8 @@ def copula_case(ctx, margins_desc, cop, gkind, gkw, mname):
     else:
         batch_case(ctx, d, cls, s, single, us[:30])
     history_case(ctx, d, cls, mk, cells, None, env=env, nd=True)
+    if firsts:
+        interleave_2d(ctx, d, cls, mname, [(mname, s)] + others, mk, cells)
 
 
 # ------------------------------------------------------------------------------------------------ driver
@@ -750,6 +978,8 @@ def run(ctx):
             dyadic_case(ctx, method, "edge", p)
     # (ii)+(iii)+(iv) factory stream, one-dimensional chains
     models = zoo.model_stream(rng, ctx.n(14, 30))
+    # (v) cross-instance histories (before anything else has touched pairings of these intervals)
+    cross_stream(ctx, models)
     for fam, params in models:
         kinds = list(zoo.GRID_KINDS) if ctx.thorough else rng.sample(zoo.GRID_KINDS, 3)
         if "probstep" not in kinds and rng.random() < 0.5:
@@ -760,7 +990,8 @@ def run(ctx):
                 one_d_chain_case(ctx, fam, params, kind, h, kw, mname, dict(stream="factory", family=fam, params=params, h=h, kw=kw, grid=kind))
     # 2-d copula chains: one fixed unequal-sided credit grid (pairing indices are skipped), then random ones
     for mname in ("INVERSION", "BINARYSEARCHTREEADAPTED"):
-        copula_case(ctx, [("hem", {}), ("merton", {})], "clayton", "credit", {"h": 0.1, "a": [-0.3, -0.4], "sym": False}, mname)
+        copula_case(ctx, [("hem", {}), ("merton", {})], "clayton", "credit", {"h": 0.1, "a": [-0.3, -0.4], "sym": False}, mname,
+                    firsts=("INVERSION", "BINARYSEARCHTREEADAPTED"))
     for _ in range(ctx.n(3, 10)):
         margins = [(rng.choice(["hem", "merton"]), {}) for _ in range(2)]
         cop = rng.choice(zoo.COPULAS)
@@ -769,7 +1000,7 @@ def run(ctx):
         else:
             gkind, gkw = "credit", {"h": 0.1, "a": [-rng.choice([0.3, 0.4]), -rng.choice([0.3, 0.4])], "sym": rng.choice([True, False])}
         for mname in ("INVERSION", "BINARYSEARCHTREEADAPTED"):
-            copula_case(ctx, margins, cop, gkind, gkw, mname)
+            copula_case(ctx, margins, cop, gkind, gkw, mname, firsts=rng.choice([(), (mname,), ("INVERSION", "BINARYSEARCHTREEADAPTED")]))
 
 
 def replay(ctx, rec):
@@ -778,12 +1009,19 @@ def replay(ctx, rec):
     if st == "dyadic" or ("p" in d and "method" in d and st in (None, "batch")):
         dyadic_case(ctx, d["method"], rec.get("cls", {}).get("kind", "replay"), d["p"])
     elif st == "factory2d" or "margins" in d:
-        copula_case(ctx, [tuple(m) for m in d["margins"]], d["copula"], d["grid"], d["gkw"], d["method"])
+        copula_case(ctx, [tuple(m) for m in d["margins"]], d["copula"], d["grid"], d["gkw"], d["method"],
+                    firsts=tuple(d.get("firsts", ())))
     elif "family" in d:
         kw = dict(d["kw"])
         if "truncations" in kw:
             kw["truncations"] = tuple(kw["truncations"])
         # histories are random: replay them with a few draws of the seeded generator
+        if "firsts" in d:          # cross-instance stream (histories are random: a few draws of the seeded generator)
+            for _ in range(4):
+                one_d_chain_case(ctx, d["family"], d["params"], d["grid"], d["h"], kw, d["method"],
+                                 dict(stream="cross", family=d["family"], params=d["params"], h=d["h"], kw=d["kw"], grid=d["grid"], firsts=d["firsts"]),
+                                 hist=False, pre=make_pre(d["firsts"]), stream="cross")
+            return
         for _ in range(1 if st != "history" else 8):
             one_d_chain_case(ctx, d["family"], d["params"], d["grid"], d["h"], kw, d["method"],
                              dict(stream="factory", family=d["family"], params=d["params"], h=d["h"], kw=d["kw"], grid=d["grid"]))
